@@ -172,6 +172,31 @@ func Features() []Feature {
 			spec.FM("when", 6, spec.Timestamp), spec.FM("span", 7, spec.Duration), spec.FM("opt_kid", 8, ch).Opt())
 		return "Root"
 	}})
+	// explicit json_name options: the wire key is what the definition says, for plain fields and next to
+	// every codec that rebuilds the JSON object itself
+	add(Feature{ID: "none/json_name/custom-keys", Ann: "none", Kind: "mixed", Card: "mixed", Shape: "json_name", Build: func(b *B) string {
+		kid := b.Child("Kid")
+		b.Msg("Root", spec.F("project_id", 1, spec.String).JSONAs("project"), spec.F("item_count", 2, spec.Int32).JSONAs("n"), spec.FM("first_kid", 3, kid).JSONAs("kid"),
+			spec.F("tag_list", 4, spec.String).Rep().JSONAs("tags"), spec.F("by_name", 5, spec.Int64).MapOf(spec.String).JSONAs("byName2"), spec.F("plain_field", 6, spec.String),
+			spec.F("UpperStart", 7, spec.String).JSONAs("UpperStart"), spec.F("snaked", 8, spec.String).JSONAs("snake_key"), spec.F("opt_val", 9, spec.String).Opt().JSONAs("optional_value"))
+		return "Root"
+	}})
+	add(Feature{ID: "int64_number/int64/singular/json_name", Ann: "int64_number", Kind: "int64", Card: "singular", Shape: "json_name", Build: func(b *B) string {
+		b.Msg("Root", spec.F("total_amount", 1, spec.Int64).JSONAs("total").With(func(a *spec.Ann) { a.Int64Enc = 2 }), spec.F("other_amount", 2, spec.Int64).JSONAs("other"), spec.F("label", 3, spec.String).JSONAs("labelText"))
+		return "Root"
+	}})
+	add(Feature{ID: "nullable/string/optional/json_name", Ann: "nullable", Kind: "string", Card: "optional", Shape: "json_name", Build: func(b *B) string {
+		b.Msg("Root", spec.F("middle_name", 1, spec.String).Opt().JSONAs("middle").With(func(a *spec.Ann) { a.Nullable = spec.B(true) }), spec.F("label", 2, spec.String).JSONAs("labelText"))
+		return "Root"
+	}})
+	add(Feature{ID: "ts_unix_seconds/timestamp/singular/json_name", Ann: "ts_unix_seconds", Kind: "timestamp", Card: "singular", Shape: "json_name", Build: func(b *B) string {
+		b.Msg("Root", spec.FM("created_at", 1, spec.Timestamp).JSONAs("created").With(func(a *spec.Ann) { a.TSFormat = 2 }), spec.F("label", 2, spec.String).JSONAs("labelText"))
+		return "Root"
+	}})
+	add(Feature{ID: "bytes_hex/bytes/singular/json_name", Ann: "bytes_hex", Kind: "bytes", Card: "singular", Shape: "json_name", Build: func(b *B) string {
+		b.Msg("Root", spec.F("digest_value", 1, spec.Bytes).JSONAs("digest").With(func(a *spec.Ann) { a.BytesEnc = 5 }), spec.F("label", 2, spec.String).JSONAs("labelText"))
+		return "Root"
+	}})
 	add(Feature{ID: "none/oneof/plain", Ann: "none", Kind: "oneof", Card: "oneof", Shape: "mixed", Build: func(b *B) string {
 		ch := b.Child("Kid")
 		m := b.Msg("Root", spec.F("id", 1, spec.String), spec.F("text_val", 2, spec.String).In(1), spec.F("num_val", 3, spec.Int64).In(1), spec.FM("kid_val", 4, ch).In(1), spec.F("flag_val", 5, spec.Bool).In(1))
